@@ -606,7 +606,7 @@ pub fn c04(tier: Tier) -> i32 {
         json!({
             "evaluations": evaluations,
             "distinct_nontrivial": distinct,
-            "rule": format!("every built expression of the program space x every path of length <= {} over at most {} representative characters that keeps the implementation's automaton alive (every accepted path up to the bound is visited; at most 4000 accepted paths per expression); the capture laws of DESIGN Appendix E through Program::matched; distinct_nontrivial = matching (expression, path) pairs", l, max_alpha),
+            "rule": format!("the long-path family (paths of 2^8, 2^16 (2^17, 2^20 thorough) bytes plus/minus one, captures beginning and ending beyond the boundary, a multi-byte character straddling it; borrowed = to_owned = into_owned = owned glob = stated expectation); every built expression of the program space x every path of length <= {} over at most {} representative characters that keeps the implementation's automaton alive (every accepted path up to the bound is visited; at most 4000 accepted paths per expression); the capture laws of DESIGN Appendix E through Program::matched; distinct_nontrivial = matching (expression, path) pairs", l, max_alpha),
             "exhaustive": rep.get("expressions_capped") == 0,
             "path_length_bound": l,
         }),
@@ -890,7 +890,7 @@ pub fn c19(tier: Tier) -> i32 {
         json!({
             "evaluations": evaluations,
             "distinct_nontrivial": distinct,
-            "rule": format!("every built expression of the program space x routes {{Display+new, Clone, into_owned, FromStr, TryFrom, any([text]) / any([compiled]) / any([owned]) / nested any, partition of owned vs borrowed}}: equal compiled pattern text (hook H1), equal answers to every query, and equal matched text at every index (borrowed, to_owned, into_owned) on every live path of length <= {}; distinct_nontrivial = built expressions", l),
+            "rule": format!("the long-path family (paths of 2^8, 2^16 (2^17, 2^20 thorough) bytes plus/minus one); every built expression of the program space x routes {{Display+new, Clone, into_owned, FromStr, TryFrom, any([text]) / any([compiled]) / any([owned]) / nested any, partition of owned vs borrowed}}: equal compiled pattern text (hook H1), equal answers to every query, and equal matched text at every index (borrowed, to_owned, into_owned) on every live path of length <= {}; distinct_nontrivial = built expressions", l),
             "exhaustive": true,
             "path_length_bound": l,
         }),
